@@ -30,7 +30,8 @@ def gen_cache(r, data):
 
 
 class _G:
-    def __init__(self, seed, faults=True, force_shape=None, fault_rate=0.25):
+    def __init__(self, seed, faults=True, force_shape=None, fault_rate=0.25, long=False):
+        self.long = long
         self.rp = R.stream(seed, "personality")
         self.r = R.stream(seed, "program")
         self.ri = R.stream(seed, "init")
@@ -170,6 +171,8 @@ class _G:
     def gen_program(self):
         r = self.r
         n = r.choice([r.randint(1, 6), r.randint(4, 14), r.randint(8, 22)])
+        if self.long:
+            n = r.randint(20, 70)
         if self.shape == "independent":
             # n mutually independent straight-line instructions: distinct destinations, sources never written
             n = r.randint(0, 12)
@@ -190,12 +193,12 @@ class _G:
             return
         if self.shape == "loops":
             prog = []
-            nloops = r.randint(1, 2)
+            nloops = r.randint(1, 2) if not self.long else r.randint(2, 5)
             for _ in range(nloops):
                 pre = r.randint(0, 3)
                 for _ in range(pre):
                     prog.append(self.one(len(prog), len(prog) + 4, len(prog) + 1, len(prog) + 1))
-                prog.append(["ADDI", self.K, 0, r.randint(1, 4)])
+                prog.append(["ADDI", self.K, 0, r.randint(1, 4) if not self.long else r.randint(2, 12)])
                 start = len(prog)
                 blen = r.choice([1, 2, 3, 4, 5, 6, 8, 9])
                 end = start + blen  # index of the counter decrement
@@ -377,8 +380,8 @@ class _G:
         }
 
 
-def generate(seed, faults=True, force_shape=None, fault_rate=0.25):
-    g = _G(seed, faults, force_shape, fault_rate)
+def generate(seed, faults=True, force_shape=None, fault_rate=0.25, long=False):
+    g = _G(seed, faults, force_shape, fault_rate, long)
     g.gen_program()
     r = g.r
     if g.shape != "independent":
@@ -396,5 +399,16 @@ def generate(seed, faults=True, force_shape=None, fault_rate=0.25):
         if r.random() < g.exit_rate:
             g.prog += [["ADDI", 17, 0, r.choice(EXIT_CODES)], ["ECALL"]]
     regs, mem = g.init()
-    prog = g.prog[:40]
-    return {"prog": prog, "regs": regs, "mem": mem, "cfg": g.config(), "plan": g.plan}
+    prog = g.prog[: (120 if long else 40)]
+    cfg = g.config()
+    if long:
+        cfg["cap"] = 2000
+        # motifs are spliced more often into long programs (never into the independent family)
+        for _ in range(g.r.randint(1, 4) if g.shape != "independent" else 0):
+            which = g.r.choice(_G.MOTIFS)
+            p = g.r.randint(0, len(prog))
+            g.prog = prog
+            g.splice(p, g.motif(which, p))
+            prog = g.prog[:120]
+            g.plan["motifs"].append({"which": which, "at": p})
+    return {"prog": prog, "regs": regs, "mem": mem, "cfg": cfg, "plan": g.plan}
